@@ -169,8 +169,12 @@ def hist (bins : Nat) (lo hi : α) (xs : List α) : List α :=
   let r := outer lo hi
   normalise (density bins r.1 r.2 xs)
 
-/-- `_intersection_divergence`: `1 - np.sum(np.minimum(p, q))` -/
-def interDiv (p q : List α) : α := one - sumL (List.zipWith pyMin p q)
+/-- `1 - np.sum(np.minimum(p, q))`, before the clamp -/
+def rawInterDiv (p q : List α) : α := one - sumL (List.zipWith pyMin p q)
+
+/-- `_intersection_divergence`: `max(1 - np.sum(np.minimum(p, q)), 0.0)` — Python `max`: the first
+    argument unless `0.0 > it` (a NaN first argument is returned as is) -/
+def interDiv (p q : List α) : α := pyMax (rawInterDiv p q) zero
 
 /-- the histograms of all components, each on its own support -/
 def hists (bins : Nat) (lower upper : List α) (proj : List (List α)) : List (List α) :=
